@@ -198,16 +198,17 @@ def check_map(rec, rng, rules, strict, merge, rd, script, scheme, sub):
         if got not in den:
             # the map itself may be ambiguous at the target (two rules admit the canonical URL): which of them wins is
             # C03's subject; the redirect is wrong only if no rule admitting the target carries the original denotation
-            tpath = unquote(urlsplit(cur).path[len(sp):])
             at_target = set()
-            for r in rules:
-                if R.ok_method(r, "GET"):
-                    for stt in (True, False):
-                        a = R.admits(r, tpath, stt)
-                        if a and a[0] == "match":
-                            args = dict(a[1])
-                            args.update(r.get("defaults") or {})
-                            at_target.add((r["ep"], tuple(sorted(args.items(), key=lambda kv: kv[0]))))
+            for hop_url in seen:
+                tpath = unquote(urlsplit(hop_url).path[len(sp):])
+                for r in rules:
+                    if R.ok_method(r, "GET"):
+                        for stt in (True, False):
+                            a = R.admits(r, tpath, stt)
+                            if a and a[0] == "match":
+                                args = dict(a[1])
+                                args.update(r.get("defaults") or {})
+                                at_target.add((r["ep"], tuple(sorted(args.items(), key=lambda kv: kv[0]))))
             if at_target & den:
                 rec.observe("ambiguous_target_tolerated")
                 continue
